@@ -220,6 +220,13 @@ def main():
         rep.rewritten += 1
         outside.append(t)
         names_external.append("TypeId")
+        t, _ = take(lib, lib_c, r"^pub struct Type<'a>", "Type", rep, lib_path)
+        # D7': the two private fields of `Type` are made visible to the specification
+        t = t.replace("    type_space: &'a TypeSpace,", "    pub type_space: &'a TypeSpace,").replace("    type_entry: &'a TypeEntry,", "    pub type_entry: &'a TypeEntry,")
+        t = t.replace("#[derive(Debug)]\n", "")
+        rep.rewritten += 2
+        outside.append(t)
+        names_external.append("Type<'a>")
         t, _ = take(lib, lib_c, r"^pub enum TypeSpaceImpl\b", "TypeSpaceImpl", rep, lib_path)
         outside.append(t)
         names_external.append("TypeSpaceImpl")
@@ -285,6 +292,8 @@ def main():
                 raise Lost("add_type_with_name mentions field `%s` outside the allocator subset" % other)
         t, _ = take(te, te_c, r"^    pub\(crate\) fn new\(value: serde_json::Value\) -> Self", "WrappedValue::new", rep, te_path, attrs=False)
         fns["wrapped_value_new"] = t
+        t, _ = take(lib, lib_c, r"^    pub fn get_type\(", "TypeSpace::get_type", rep, lib_path, attrs=False)
+        fns["get_type"] = t
         t, _ = take(lib, lib_c, r"^    pub fn add_type\(", "TypeSpace::add_type", rep, lib_path, attrs=False)
         fns["add_type"] = t
         t, _ = take(lib, lib_c, r"^    fn id_for_schema\b", "TypeSpace::id_for_schema", rep, lib_path, attrs=False)
@@ -372,6 +381,9 @@ def main():
         g.append(prelude.split("// ---8<--- inside verus ---8<---")[1])
         for n in names_external:
             opaque = "#[verifier::external_body]\n" if n in OPAQUE else ""
+            if n == "Type<'a>":
+                g.append("#[verifier::external_type_specification]\npub struct ExType<'a>(Type<'a>);\n")
+                continue
             g.append("#[verifier::external_type_specification]\n%spub struct Ex%s(%s);\n" % (opaque, n, n))
         g.append(specs)
         g.append("\n// ======== /repo text (functions), contracts spliced ========\n")
@@ -381,9 +393,11 @@ def main():
         g.append("impl TypeEntry {\n" + fn_with_contract("name", fns["name"]) + "\n\n" + fn_with_contract("finalize", fns["finalize"]) + "\n}\n\n")
         g.append("impl From<TypeEntryDetails> for TypeEntry {\n" + fn_with_contract("from_details", fns["from_details"]) + "\n}\n\n")
         g.append("impl TypeSpace {\n")
-        for f in FUNCS + ["convert_ref_type_tail", "id_for_schema", "add_type_with_name", "add_type", "add_ref_types_tail"]:
+        for f in FUNCS + ["convert_ref_type_tail", "id_for_schema", "add_type_with_name", "add_type", "get_type", "add_ref_types_tail"]:
             g.append(fn_with_contract(f, fns[f]) + "\n\n")
         g.append("}\n")
+        g.append("\n// ======== property lemmas over the contracts (verus/lemmas.rs) ========\n")
+        g.append(open(os.path.join(HERE, "lemmas.rs")).read())
         g.append("\n} // verus!\n\nfn main() {}\n")
         open(out_path, "w").write("".join(g))
         # the two type_entry.rs functions are emitted by specs.rs wrappers (see there); record their text
